@@ -972,7 +972,9 @@ def _iter_unreachable_nodes(body: Iterable[ast.AST]) -> Iterable[ast.AST]:
     after_block = False
     for node in body:
         if after_block:
-            yield node
+            # A yield makes its function a generator, also where it is never reached
+            if not any(isinstance(child, (ast.Yield, ast.YieldFrom)) for child in ast.walk(node)):
+                yield node
             continue
         if core.is_blocking(node):
             after_block = True
